@@ -178,7 +178,11 @@ def build_tle(f, sp):
     else:
         arg = "\n".join(lines)
     kw = sp.get("kwargs") or {}
+    given = list(arg) if c == "list" else None
     tle = Tle(arg, **kw)
+    if given is not None and arg != given:
+        raise Violation("argument-modified", f"Tle(lines) changed the caller's list: {len(given)} lines given, "
+                        f"{len(arg)} left ({[ln[:12] for ln in arg]})")
     if kw and tle.kwargs != kw:
         raise Violation("field:kwargs", f"Tle(text, **{kw}).kwargs is {tle.kwargs!r}")
     tle = _clone(tle, sp.get("clone", "none"))
